@@ -363,7 +363,15 @@ func (fr *Frame) enterLoop(h *ssa.BasicBlock, ins []edge, _ *State) *State {
 			facts = append(facts, fr.evalClause(env, c))
 		}
 	}
-	st.reach = vc.define("r", "Bool", and(append([]string{pre.reach}, facts...)...))
+	base := pre.reach
+	if fr.top && fr.contract != nil && fr.contract.Options[fmt.Sprintf("loop-cut-%d", lc.ordinal)] && fr.entryReach != "" {
+		// `option loop-cut-<k>`: proof cut at the head of loop k. Inside and after the loop only the function's entry
+		// facts (requires, parameter typing) and the loop's invariants are assumed; everything else learned on the way
+		// to the loop (path conditions, lemma instances, callee postconditions) is forgotten. Assuming less is sound;
+		// what the loop needs from before must be restated as an invariant (inv-init is proved in the full context).
+		base = fr.entryReach
+	}
+	st.reach = vc.define("r", "Bool", and(append([]string{base}, facts...)...))
 	lc.head = st.clone()
 	fr.loops[h] = lc
 	return st
